@@ -13,9 +13,11 @@ import WcModel.Model.Norm
               if expanded not in seen: seen.add; route to negative / positive
           if limit: current_limit = max(1, current_limit - count)
 
-  with different wrappers (exclude= recursion and `limit -= len(negative)` in the first two,
-  a shared `current_limit` but a fresh `total`/`seen` per list in `Glob`; NEGATEALL default and
-  NODIR append in all three).  The three are modelled by three separate definitions
+  with different wrappers (exclude= recursion in the first two, whose main loop starts with
+  `used = len(negative)`, `total = used`, `current_limit = max(limit - used, 1) if limit > 0 else
+  limit` — the exclusion patterns count against the same limit; a shared `current_limit` AND a
+  shared `self.total` but a fresh `seen` per list in `Glob`; NEGATEALL default and NODIR append in
+  all three).  The three are modelled by three separate definitions
   (`translate`, `compilePattern`, `globPatterns`) with their own policies and wrappers over one
   engine (`runPatterns`) that is the text of the loop above.
 
@@ -112,6 +114,11 @@ def runItems {O} (pol : Policy O) (limit : Int) : List (List Pat) → Acc O → 
 def nextLimit (limit cl : Int) (count : Nat) : Int :=
   if limit ≠ 0 then (if cl - count < 1 then 1 else cl - count) else cl
 
+/-- `current_limit = max(limit - used, 1) if limit > 0 else limit` — the bracex budget the main
+    loop of `translate` / `compile_pattern` starts with after `used` exclusion patterns -/
+def startLimit (limit : Int) (used : Nat) : Int :=
+  if 0 < limit then (if limit - used < 1 then 1 else limit - used) else limit
+
 /-- the outer loop; returns the state and the final `current_limit` -/
 def runPatterns {R O} (x : Ext R) (fl : Flags) (pol : Policy O) (limit : Int) :
     List Pat → Int → Acc O → Except (Err × Nat) (Acc O × Int)
@@ -172,11 +179,13 @@ def finishPN {R} (x : Ext R) (fl : Flags) (o : PN R) : PN R :=
   let neg := if !pos.isEmpty && fl.nodir then o.neg ++ [x.noDir (isUnixStyle fl)] else o.neg
   ⟨pos, neg⟩
 
-/-- `translate` with `exclude=None`, started with a given negative list and pull count -/
-def translateCore {R} (x : Ext R) (fl0 : Flags) (limit : Int) (pats : List Pat) (neg0 : List R) (pulls0 : Nat) :
-    Except (Err × Nat) (Out R) :=
+/-- the loop of `translate` and what follows it, started with a given negative list, pull count
+    and `used = len(negative)` (0 without `exclude=`): `total = used`,
+    `current_limit = startLimit limit used` -/
+def translateCore {R} (x : Ext R) (fl0 : Flags) (limit : Int) (pats : List Pat) (neg0 : List R) (pulls0 : Nat)
+    (used : Nat) : Except (Err × Nat) (Out R) :=
   let fl := { fl0 with translate := true }            -- `(flags | _TRANSLATE) & FLAG_MASK`
-  match runPatterns x fl (pnPolicy x fl) limit pats limit ⟨0, pulls0, [], ⟨[], neg0⟩⟩ with
+  match runPatterns x fl (pnPolicy x fl) limit pats (startLimit limit used) ⟨used, pulls0, [], ⟨[], neg0⟩⟩ with
   | .error e => .error e
   | .ok (a, _) => let o := finishPN x fl a.out; .ok ⟨o.pos, o.neg, a.pulls⟩
 
@@ -184,17 +193,17 @@ def translateCore {R} (x : Ext R) (fl0 : Flags) (limit : Int) (pats : List Pat) 
 def translate {R} (x : Ext R) (fl0 : Flags) (limit : Int) (pats : List Pat) (excl : Option (List Pat)) :
     Except (Err × Nat) (Out R) :=
   match excl with
-  | none => translateCore x fl0 limit pats [] 0
+  | none => translateCore x fl0 limit pats [] 0 0
   | some ex =>
     let fl1 := noNegateFlags fl0
-    match translateCore x (negFlags fl1) limit ex [] 0 with
+    match translateCore x (negFlags fl1) limit ex [] 0 0 with
     | .error e => .error e
-    | .ok o => translateCore x fl1 (limit - o.pos.length) pats o.pos o.pulls     -- `limit -= len(negative)`
+    | .ok o => translateCore x fl1 limit pats o.pos o.pulls o.pos.length        -- `used = len(negative)`
 
-/-- `compile_pattern` with `exclude=None` -/
-def compileCore {R} (x : Ext R) (fl : Flags) (limit : Int) (pats : List Pat) (neg0 : List R) (pulls0 : Nat) :
-    Except (Err × Nat) (Out R) :=
-  match runPatterns x fl (pnPolicy x fl) limit pats limit ⟨0, pulls0, [], ⟨[], neg0⟩⟩ with
+/-- the loop of `compile_pattern` and what follows it (see `translateCore`) -/
+def compileCore {R} (x : Ext R) (fl : Flags) (limit : Int) (pats : List Pat) (neg0 : List R) (pulls0 : Nat)
+    (used : Nat) : Except (Err × Nat) (Out R) :=
+  match runPatterns x fl (pnPolicy x fl) limit pats (startLimit limit used) ⟨used, pulls0, [], ⟨[], neg0⟩⟩ with
   | .error e => .error e
   | .ok (a, _) => let o := finishPN x fl a.out; .ok ⟨o.pos, o.neg, a.pulls⟩
 
@@ -202,12 +211,12 @@ def compileCore {R} (x : Ext R) (fl : Flags) (limit : Int) (pats : List Pat) (ne
 def compilePattern {R} (x : Ext R) (fl0 : Flags) (limit : Int) (pats : List Pat) (excl : Option (List Pat)) :
     Except (Err × Nat) (Out R) :=
   match excl with
-  | none => compileCore x fl0 limit pats [] 0
+  | none => compileCore x fl0 limit pats [] 0 0
   | some ex =>
     let fl1 := noNegateFlags fl0
-    match compileCore x (negFlags fl1) limit ex [] 0 with
+    match compileCore x (negFlags fl1) limit ex [] 0 0 with
     | .error e => .error e
-    | .ok o => compileCore x fl1 (limit - o.pos.length) pats o.pos o.pulls
+    | .ok o => compileCore x fl1 limit pats o.pos o.pulls o.pos.length          -- `used = len(negative)`
 
 /-! ### `Glob.__init__` → `_parse_patterns(pats)`, `_parse_patterns(epats, force_negate=True)` -/
 
@@ -242,12 +251,13 @@ def finishGlob {R} (x : Ext R) (g : GlobCfg) (force : Bool) (o : GPN R) : GPN R 
   let neg := if g.nodir && !force then o.neg ++ [x.noDir false] else o.neg     -- re_no_dir is the Windows variant on both branches
   ⟨pos, neg⟩
 
-/-- one `_parse_patterns` call: fresh `total` and `seen`, shared `current_limit` -/
-def globParse {R} (x : Ext R) (g : GlobCfg) (force : Bool) (pats : List Pat) (cl : Int) (o : GPN R) (pulls : Nat) :
-    Except (Err × Nat) (GPN R × Int × Nat) :=
-  match runPatterns x g.flags (globPolicy x g force) g.limit pats cl ⟨0, pulls, [], o⟩ with
+/-- one `_parse_patterns` call: fresh `seen`; `self.current_limit` and `self.total` are shared by
+    the two calls (handed in, handed back) -/
+def globParse {R} (x : Ext R) (g : GlobCfg) (force : Bool) (pats : List Pat) (cl : Int) (o : GPN R) (pulls : Nat)
+    (total : Nat) : Except (Err × Nat) (GPN R × Int × Nat × Nat) :=
+  match runPatterns x g.flags (globPolicy x g force) g.limit pats cl ⟨total, pulls, [], o⟩ with
   | .error e => .error e
-  | .ok (a, cl') => .ok (finishGlob x g force a.out, cl', a.pulls)
+  | .ok (a, cl') => .ok (finishGlob x g force a.out, cl', a.pulls, a.total)
 
 structure GOut (R : Type) where
   pos : List GPos
@@ -261,15 +271,15 @@ def globPatterns {R} (x : Ext R) (g : GlobCfg) (pats : List Pat) (excl : Option 
     Except (Err × Nat) (GOut R) :=
   if pats.isEmpty then .ok ⟨[], [], 0⟩          -- `if not pattern: return`
   else
-    match globParse x g false pats g.limit ⟨[], []⟩ 0 with
+    match globParse x g false pats g.limit ⟨[], []⟩ 0 0 with     -- `self.current_limit = self.limit; self.total = 0`
     | .error e => .error e
-    | .ok (o, cl, pulls) =>
+    | .ok (o, cl, pulls, total) =>
       match excl with
       | none => .ok ⟨o.pos, o.neg, pulls⟩
       | some ex =>
-        match globParse x g true ex cl o pulls with
+        match globParse x g true ex cl o pulls total with
         | .error e => .error e
-        | .ok (o', _, pulls') => .ok ⟨o'.pos, o'.neg, pulls'⟩
+        | .ok (o', _, pulls', _) => .ok ⟨o'.pos, o'.neg, pulls'⟩
 
 /-! ### matching (`_Match.match`, non-REALPATH part) -/
 
